@@ -62,7 +62,7 @@ CLAIMS["C04"] = dict(
     technique="machine-checked proof in Coq (invariant preserved on unwinding paths) + fault-injection correspondence")
 CLAIMS["C05"] = dict(
     text="Coq theorems (Properties/C05.v): with an ARBITRARY hasher that may answer differently at every call (and panic), every operation of every history keeps SafeWF and block ownership, never reaches a checked-primitive failure, terminates (fuel never exhausted), and len() equals the number of elements iteration yields (run_var_safe, run_len_exact)." + TIE + " Histories with call-dependent Hash and/or Eq implementations (results depend on a call counter); judged for safety: SafeWF, len = iteration count, each stored object yielded once, registry and allocator checks.",
-    note=COMMON_NOTE + " PARTIAL: inconsistent Eq is exercised by the harness only (the model's key equality is fixed); inconsistent Hash is fully quantified in the theorem.",
+    note=COMMON_NOTE + " Inconsistent Hash is fully quantified in the operation-level theorems; inconsistent Eq is quantified at the level of the two raw search functions every operation uses (Properties/C05e.v: RawTable::find and find_or_find_insert_slot terminate, stay in bounds and keep the table valid for an ARBITRARY equality predicate chosen anew at every call) and exercised at operation level by the harness (the operation-level model fixes key equality).",
     technique="machine-checked proof in Coq (invariant independent of Hash laws) + correspondence with lawless Hash/Eq")
 CLAIMS["C08"] = dict(
     text="Coq theorems (Properties/C08.v): capacity >= len on every SafeWF table; with_capacity(n) and reserve(n) guarantee n further insertions fit; an insertion while growth_left > 0 performs no allocator event and keeps the bucket count (no_alloc_while_room); shrink_to(m) keeps all elements, never grows the block, and yields the bucket count of a fresh with_capacity(max(len, m)) or frees everything; clear keeps the allocation. Arithmetic (capacity_to_buckets etc.) is generated from raw/mod.rs on every run." + TIE + " Capacity oracles (K-FAIL) evaluate these contracts on the implementation's own dumps after every step for element sizes 0..200.",
